@@ -577,7 +577,7 @@ fn c16_eq_w5() {
     check_eq(&any_name::<5>(), &any_name::<5>());
 }
 
-// @harness props=C16 tier=thorough mem=4 t=3400 fn="<Name as PartialEq>::eq,<Label as PartialEq>::eq,Name::labels"
+// @harness props=C16 tier=thorough mem=11 t=3400 fn="<Name as PartialEq>::eq,<Label as PartialEq>::eq,Name::labels"
 //   bound="every ordered pair of valid names of wire length <= 7 (all shapes, every octet value), stack view; unwind 9"
 //   sym="a,b: buf:[u8;7], len<=7"
 #[kani::proof]
@@ -618,7 +618,7 @@ fn c16_cmp_w5() {
     check_cmp(&any_name::<5>(), &any_name::<5>());
 }
 
-// @harness props=C16 tier=thorough mem=4 t=3400 fn="<Name as Ord>::cmp,<Label as Ord>::cmp,<Name as PartialEq>::eq,Name::labels,Labels::next_back"
+// @harness props=C16 tier=thorough mem=10 t=3400 fn="<Name as Ord>::cmp,<Label as Ord>::cmp,<Name as PartialEq>::eq,Name::labels,Labels::next_back"
 //   bound="every ordered pair of valid names of wire length <= 7 (all shapes, every octet value), stack view; unwind 9"
 //   sym="a,b: buf:[u8;7], len<=7"
 #[kani::proof]
@@ -644,7 +644,7 @@ fn c16_cmp_antisymmetric_w5() {
     check_cmp_antisym(&any_name::<5>(), &any_name::<5>());
 }
 
-// @harness props=C16 tier=thorough mem=14 t=3400 fn="<Name as Ord>::cmp,<Name as PartialOrd>::partial_cmp,<Label as Ord>::cmp"
+// @harness props=C16 tier=thorough mem=7 t=3400 fn="<Name as Ord>::cmp,<Name as PartialOrd>::partial_cmp,<Label as Ord>::cmp"
 //   bound="every ordered pair of valid names of wire length <= 7 (all shapes, every octet value), stack view; unwind 9"
 //   sym="a,b: buf:[u8;7], len<=7"
 #[kani::proof]
@@ -676,7 +676,7 @@ fn c16_hash_2x2() {
     pair_2x2(check_hash);
 }
 
-// @harness props=C16 tier=thorough mem=12 t=3400 fn="<Name as Hash>::hash,<Label as Hash>::hash"
+// @harness props=C16 tier=thorough mem=7 t=3400 fn="<Name as Hash>::hash,<Label as Hash>::hash"
 //   bound="every ordered pair of valid names of wire length <= 7 (all shapes, every octet value); recording Hasher; unwind 9"
 //   sym="a,b: buf:[u8;7], len<=7"
 #[kani::proof]
@@ -724,7 +724,7 @@ fn c16_eq_or_subdomain_of_2x2() {
     pair_2x2(check_sub);
 }
 
-// @harness props=C16 tier=thorough mem=12 t=3400 fn="Name::eq_or_subdomain_of,<Label as PartialEq>::eq,Name::labels,Labels::next_back"
+// @harness props=C16 tier=thorough mem=7 t=3400 fn="Name::eq_or_subdomain_of,<Label as PartialEq>::eq,Name::labels,Labels::next_back"
 //   bound="every ordered pair of valid names of wire length <= 7 (all shapes, every octet value), stack view; unwind 9"
 //   sym="a,b: buf:[u8;7], len<=7"
 #[kani::proof]
@@ -776,7 +776,7 @@ fn c16_cmp_transitive_w5() {
     check_cmp_transitive(&any_name::<5>(), &any_name::<5>(), &any_name::<5>());
 }
 
-// @harness props=C16 tier=thorough mem=14 t=3400 fn="<Name as PartialEq>::eq,<Label as PartialEq>::eq"
+// @harness props=C16 tier=thorough mem=7 t=3400 fn="<Name as PartialEq>::eq,<Label as PartialEq>::eq"
 //   bound="every triple of valid names of wire length <= 7 (all shapes incl. 2 labels x 2 octets, every octet value), stack view; unwind 9"
 //   sym="a,b,c: buf:[u8;7], len<=7"
 #[kani::proof]
@@ -785,7 +785,7 @@ fn c16_eq_transitive_w7() {
     check_eq_transitive(&any_name::<7>(), &any_name::<7>(), &any_name::<7>());
 }
 
-// @harness props=C16 tier=thorough mem=14 t=3400 fn="<Name as Ord>::cmp,<Label as Ord>::cmp"
+// @harness props=C16 tier=thorough mem=7 t=3400 fn="<Name as Ord>::cmp,<Label as Ord>::cmp"
 //   bound="every triple of valid names of wire length <= 7 (all shapes incl. 2 labels x 2 octets, every octet value), stack view; unwind 9"
 //   sym="a,b,c: buf:[u8;7], len<=7"
 #[kani::proof]
@@ -1329,7 +1329,7 @@ fn c16_parse_rendered_2_2() {
     kani::cover!(o[0] == b'a' && o[1] == b'.' && o[2] == 0xff && o[3] == b'\\', "one octet of each kind");
 }
 
-// @harness props=C16 tier=thorough mem=6 t=3400 fn="<Name as Display>::fmt,<Label as Display>::fmt"
+// @harness props=C16 tier=thorough mem=4 t=3400 fn="<Name as Display>::fmt,<Label as Display>::fmt"
 //   bound="every name of labels (1,2) octets (2^24 names): Display output equals the reference text; unwind 16" sym="o:[u8;3]"
 #[kani::proof]
 #[kani::unwind(16)]
@@ -1340,7 +1340,7 @@ fn c16_display_1_2() {
     kani::cover!(o[0] == b'.' && o[1] == 0xff && o[2] == b'\\', "one octet of each escaped kind");
 }
 
-// @harness props=C16 tier=thorough mem=6 t=3400 fn="<Name as Display>::fmt,<Label as Display>::fmt"
+// @harness props=C16 tier=thorough mem=4 t=3400 fn="<Name as Display>::fmt,<Label as Display>::fmt"
 //   bound="every name of labels (2,1) octets (2^24 names): Display output equals the reference text; unwind 16" sym="o:[u8;3]"
 #[kani::proof]
 #[kani::unwind(16)]
